@@ -296,7 +296,7 @@ pub fn truth(reg: &Registry, s: &dyn Subject, p: &Ov, run: &Run) -> Vec<Untrue> 
                         // a field whose key is the enum's tag is absent by construction (C10: fields are
                         // read from the entries that remain after the tag is taken out)
                         let is_tag = matches!(
-                            ty_at(&reg.defs, s.ty(), p, &r.loc).map(|t| strip(&t)),
+                            ty_at(&reg.defs, s.ty(), p, &r.loc).map(|t| through_conv(&reg.defs, &t)),
                             Some(Ty::Named(n)) if matches!(reg.defs.0.get(&n), Some(Def::Enum(e)) if e.tag == *field)
                         );
                         if !is_tag {
@@ -329,6 +329,22 @@ pub fn truth(reg: &Registry, s: &dyn Subject, p: &Ov, run: &Run) -> Vec<Untrue> 
         }
     }
     out
+}
+
+/// The type whose body is read at a location: `Option` / `Box` and container-level `from` / `try_from` are
+/// transparent (the intermediate type is deserialized at the same location).
+fn through_conv(defs: &Defs, t: &Ty) -> Ty {
+    let mut t = strip(t);
+    for _ in 0..32 {
+        match &t {
+            Ty::Named(n) => match defs.0.get(n) {
+                Some(Def::Conv(c)) => t = strip(&c.inter),
+                _ => break,
+            },
+            _ => break,
+        }
+    }
+    t
 }
 
 fn strip(t: &Ty) -> Ty {
